@@ -247,7 +247,7 @@ func (rr *recordRun) recordBig() {
 	h, pool := rr.h, rr.pool
 	P := ptxSet(ev.Pick(h.r, pairwiseRShapes(), allRShapes()))
 	N := len(P)
-	h.r.Set("per_tx_shapes_size2_3", int64(N))
+	h.r.Set("per_tx_shapes_size2", int64(N))
 	// (e) size 2 in full over P x P
 	h.runGen(gen{"size2", N * N, true, chunkSize, func(i int, n uint64, slot int) *blockCase {
 		a, b := P[i/N], P[i%N]
@@ -255,6 +255,10 @@ func (rr *recordRun) recordBig() {
 	}}, pool)
 	// (f) size 3 pairwise: rows (a, b, a+b mod N) of the cyclic Latin square form an orthogonal array of strength 2 —
 	// every pair of positions sees every pair of per-tx shapes exactly once.
+	// Per-tx shapes: quick = 12 kinds x 12 pairwise receipt shapes; thorough = 12 kinds x 36 strength-3 receipt shapes.
+	P = ptxSet(ev.Pick(h.r, pairwiseRShapes(), strength3RShapes()))
+	N = len(P)
+	h.r.Set("per_tx_shapes_size3", int64(N))
 	h.runGen(gen{"size3_pairwise", N * N, true, chunkSize, func(i int, n uint64, slot int) *blockCase {
 		a, b := i/N, i%N
 		s := []ptx{P[a], P[b], P[(a+b)%N]}
